@@ -14,7 +14,7 @@ Expected(c, p) == IF IsWalk(ToSet(c.nodes), LinksOf(c), p) THEN Spell(c.seq, p) 
 
 Verdict(c) ==
   LET N == Len(c.res) IN
-  IF {c.res[k].p : k \in 1..N} # AllPaths(c) \/ N # Cardinality(AllPaths(c)) THEN "harness_paths_incomplete"
+  IF {c.res[k].p : k \in 1..N} # AllPaths(c) \/ N < Cardinality(AllPaths(c)) THEN "harness_paths_incomplete"   \* (some paths are listed twice on purpose)
   ELSE IF \E k \in 1..N : c.res[k].lib # Expected(c, c.res[k].p) THEN
        (IF \E k \in 1..N : c.res[k].lib # "" /\ ~IsWalk(ToSet(c.nodes), LinksOf(c), c.res[k].p) THEN "lib_nonwalk_spelled"
         ELSE IF \E k \in 1..N : c.res[k].lib = "" /\ IsWalk(ToSet(c.nodes), LinksOf(c), c.res[k].p) THEN "lib_walk_rejected"
